@@ -336,8 +336,17 @@ static void begin_history(int fibres_n)
 {
 	nf = fibres_n;
 	fibre_verif_reset();
+	static unsigned hist_no;
+	hist_no++;
 	for (int i = 0; i < NF; i++) {
-		fibre_init(&fibres[i], body);
+		/* alternate between the dynamic and the static initialiser: they must describe the same fibre */
+		if ((hist_no + (unsigned)i) & 1) {
+			fibre_init(&fibres[i], body);
+		} else {
+			fibre_t tmp = FIBRE_VAR_INIT(body);
+			memset(&fibres[i], 0x5a, sizeof(fibres[i]));
+			fibres[i] = tmp;
+		}
 		fixed_policy[i] = -1;
 	}
 	rs_init(&rs, nf);
